@@ -413,6 +413,10 @@ func RunPolicy(file string, seed int64) (*Report, error) {
 				}
 				if form == "encrypted-wrong" || form == "hmac-wrong" {
 					props = append(props, "C16")
+				} else if (v.Exp.Leaf == "encrypted" || v.Exp.Leaf == "hmac") && (strings.HasPrefix(outs[i], "encrypted:") || strings.HasPrefix(outs[i], "hmac-sha256:")) {
+					// what comes out carries the marker of a protected value but is not one (it is the input itself, which
+					// happened to look like the filter's output): it neither decrypts to the original nor is its digest
+					props = append(props, "C16")
 				}
 				rep.mm(Mismatch{Props: props, What: "form of the classified value after the filter", Vector: v.V, Expected: v.Exp.Leaf, Observed: form})
 				return nil
